@@ -66,3 +66,11 @@ package types
 //@   ensures [index] byte(r)&0x1F == byte(f)&0x1F
 //@   ensures [known] (byte(f)&0x1F) <= 16 ==> KnownIdx(r)
 //@   assigns nothing
+
+//@@ the invalid value of a base type as an interface value (table goinvalid; its entries are what C15 compares
+//@@ the constructors with): assumed total, never nil
+//@ func (t Base) Invalid() (r interface{})
+//@   props C05 C06
+//@   trusted
+//@   ensures r != nil
+//@   assigns nothing
